@@ -1870,6 +1870,7 @@ func tagidxMain(args []string) int {
 	bign := fs.Int("big-n", 3000, "series per big universe")
 	bigq := fs.Int("big-q", 3, "queries per batch of a big universe")
 	nfind := fs.Int("findings", 1, "universes per recorded finding")
+	ntw := fs.Int("twins", 0, "universes with filters whose textual forms coincide (k = '~a' / k =~ 'a', k in ('a,b') / k in ('a','b'))")
 	nff := fs.Int("flushfail", 0, "universes whose flushes fail at the completion of one family's table file (fault injection), then are retried")
 	nwin := fs.Int("window", 0, "universes whose flushes are entered (questions / writes inside the commit window of a flush)")
 	enumEvery := fs.Int("enum-every", 0, "exhaustive small universe: run every n-th series set (0 = none, 1 = all 256)")
@@ -1917,6 +1918,9 @@ func tagidxMain(args []string) int {
 	for i := 0; i < *nff; i++ {
 		r.flushfail(i+int(*seed), *qn)
 	}
+	for i := 0; i < *ntw; i++ {
+		r.twins(i + int(*seed))
+	}
 	if *enumEvery > 0 {
 		sum.Extra["enum_universes"] = r.enum(*enumEvery, int(*seed), *enumD2, *enumTriples)
 	}
@@ -1933,6 +1937,7 @@ func tagidxMain(args []string) int {
 			r.findingLikeStar()
 			r.findingRegex()
 			r.findingFamilyRead()
+			r.findingCommaGroupBy()
 			if *lut {
 				r.findingForwardLut(i%2 == 1)
 			}
@@ -1949,7 +1954,99 @@ func tagidxMain(args []string) int {
 	return 0
 }
 
+// twins: tag filters whose TEXTUAL forms coincide although they are different filters -- k = '~a' and k =~ 'a' both
+// read "k=~a", k in ('a,b') and k in ('a','b') both read "k in (a,b)" -- in ONE where clause, over values chosen so that
+// the two filters select different series.  (Before the repair 14963b2 the two lookups shared one result.)
+func (r *tixRun) twins(variant int) {
+	pool := []string{"a", "~a", "~~a", "b", "a,b", "ab"}
+	u := &tixUniverse{metrics: []string{"cpu", "mem"}, have: map[string]bool{}, otherOneIn: 5}
+	u.keys = []string{"az", "rack"}
+	for range u.keys {
+		u.pool = append(u.pool, append([]string{}, pool...))
+		u.vals = append(u.vals, nil)
+		u.vidx = append(u.vidx, map[string]int{})
+	}
+	if !r.begin("twins", u) {
+		return
+	}
+	defer r.end()
+	if !r.writeSome(14, 10) || !r.writeSome(10, 10) {
+		return
+	}
+	eq := func(k int, v string, neg bool) *tixCond {
+		return &tixCond{Op: "atom", K: k, Kind: "eq", Neg: neg, Lits: [][]byte{[]byte(v)}, Alt: r.rng.Intn(6)}
+	}
+	in := func(k int, neg bool, vs ...string) *tixCond {
+		c := &tixCond{Op: "atom", K: k, Kind: "in", Neg: neg, Alt: r.rng.Intn(6)}
+		for _, v := range vs {
+			c.Lits = append(c.Lits, []byte(v))
+		}
+		return c
+	}
+	re := func(k int, v string, neg bool) *tixCond {
+		c := &tixCond{Op: "atom", K: k, Kind: "regex", Neg: neg, Shape: "bare", Lits: [][]byte{[]byte(v)}, Anch: false}
+		c.Pat = renderRegex(c.Shape, c.Lits, c.Anch)
+		if rp, err := regexp.Compile(c.Pat); err == nil {
+			lp, _ := rp.LiteralPrefix()
+			c.LP = []byte(lp)
+		}
+		return c
+	}
+	and := func(a, b *tixCond) *tixCond { return &tixCond{Op: "and", L: a, R: b} }
+	or := func(a, b *tixCond) *tixCond { return &tixCond{Op: "or", L: a, R: b} }
+	ask := func() {
+		for k := 1; k <= 2 && r.ok; k++ {
+			for _, c := range []*tixCond{
+				and(re(k, "a", true), eq(k, "~a", true)),
+				and(eq(k, "~a", true), re(k, "a", true)),
+				and(re(k, "a", false), eq(k, "~a", true)),
+				or(eq(k, "~a", false), re(k, "b", false)),
+				or(re(k, "~a", false), eq(k, "~~a", false)),
+				and(in(k, true, "a,b"), in(k, false, "a", "b")),
+				or(in(k, false, "a,b"), in(k, false, "a", "b")),
+				and(in(k, false, "a", "b", "a,b"), in(k, true, "a,b")),
+			} {
+				if r.ok {
+					// (not grouped: a value with a comma under group-by is another matter, see findingCommaGroupBy)
+					r.query(1, c, nil, "twins")
+				}
+			}
+		}
+	}
+	ask()
+	if variant%2 == 0 {
+		_ = r.step("PrepMeta") && r.step("FlushMeta") && r.step("PrepIdx") && r.step("FlushIdx")
+		ask()
+	}
+	_ = r.step("Reopen")
+	ask()
+}
+
 // ---------------------------------------------------------------- recorded findings
+
+// a tag value that contains a COMMA under group-by: the tag values of a group travel from the leaves to the root joined
+// by commas (tag.ConcatTagValues / SplitTagValues), so such a group comes back with one value too many and is lost
+func (r *tixRun) findingCommaGroupBy() {
+	pool := []string{"a", "b", "a,b"}
+	u := &tixUniverse{metrics: []string{"cpu", "mem"}, have: map[string]bool{}, otherOneIn: 1 << 30}
+	u.keys = []string{"az", "rack"}
+	for range u.keys {
+		u.pool = append(u.pool, append([]string{}, pool...))
+		u.vals = append(u.vals, nil)
+		u.vidx = append(u.vidx, map[string]int{})
+	}
+	if !r.begin("finding-comma-groupby", u) {
+		return
+	}
+	defer r.end()
+	if !r.writeSome(12, 0) {
+		return
+	}
+	for k := 1; k <= 2 && r.ok; k++ {
+		c := &tixCond{Op: "atom", K: k, Kind: "in", Lits: [][]byte{[]byte("a"), []byte("b"), []byte("a,b")}}
+		r.query(1, c, []int{k}, "comma-groupby")
+	}
+}
 
 // like '*': accepted by the parser, the reference says "contains the empty string" (every series that has the key)
 func (r *tixRun) findingLikeStar() {
